@@ -37,6 +37,8 @@ pub enum Ans {
     Ok200,
     NotFound404,
     Forbidden403,
+    /// a final 3xx (no Location: reqwest hands it through): not in the retryable status list
+    NotModified304,
     /// 429 without Retry-After
     Rl,
     /// 429, `Retry-After: 1`
@@ -49,7 +51,7 @@ pub enum Ans {
     Srv500,
 }
 
-const ALL: [Ans; 9] = [Ans::Ok200, Ans::NotFound404, Ans::Forbidden403, Ans::Rl, Ans::Rl1, Ans::Rl0, Ans::RlJunk, Ans::Srv503, Ans::Srv500];
+const ALL: [Ans; 10] = [Ans::Ok200, Ans::NotFound404, Ans::Forbidden403, Ans::NotModified304, Ans::Rl, Ans::Rl1, Ans::Rl0, Ans::RlJunk, Ans::Srv503, Ans::Srv500];
 
 impl Ans {
     fn name(self) -> &'static str {
@@ -57,6 +59,7 @@ impl Ans {
             Ans::Ok200 => "200",
             Ans::NotFound404 => "404",
             Ans::Forbidden403 => "403",
+            Ans::NotModified304 => "304",
             Ans::Rl => "429",
             Ans::Rl1 => "429+Retry-After:1",
             Ans::Rl0 => "429+Retry-After:0",
@@ -73,6 +76,7 @@ impl Ans {
             Ans::Ok200 => 200,
             Ans::NotFound404 => 404,
             Ans::Forbidden403 => 403,
+            Ans::NotModified304 => 304,
             Ans::Rl | Ans::Rl1 | Ans::Rl0 | Ans::RlJunk => 429,
             Ans::Srv503 => 503,
             Ans::Srv500 => 500,
@@ -95,7 +99,7 @@ impl Ans {
         }
     }
     fn terminal(self) -> bool {
-        matches!(self, Ans::Ok200 | Ans::NotFound404 | Ans::Forbidden403)
+        matches!(self, Ans::Ok200 | Ans::NotFound404 | Ans::Forbidden403 | Ans::NotModified304)
     }
 }
 
@@ -297,7 +301,7 @@ pub fn judge(entry: Entry, path: &[Ans], obs: &CdnObs) -> Vec<CdnVio> {
 
 fn alphabet(tier: Tier) -> Vec<Ans> {
     match tier {
-        Tier::Quick => vec![Ans::Ok200, Ans::NotFound404, Ans::Rl, Ans::Rl1, Ans::RlJunk, Ans::Srv503],
+        Tier::Quick => vec![Ans::Ok200, Ans::NotFound404, Ans::NotModified304, Ans::Rl, Ans::Rl1, Ans::RlJunk, Ans::Srv503],
         Tier::Thorough => ALL.to_vec(),
     }
 }
